@@ -22,7 +22,7 @@ claimed.update({
    design="5/C10"),
  "C16": dict(
    text="Bounded exhaustive exploration of GetMatchingNode on every list of <=3 (thorough 4) node variants x every probe variant x every permutation of the list against the documented rule written as a reference over HashesMatch, plus membership and order independence; plain lookups (id, name, identifier spelling x value, roots, purl type) against filter references on all small lists and permutations.",
-   note="Trusted: the reference rule (validated against the implementation on every non-ambiguous case); empty-valued hash entries only get membership/uniqueness/order-independence; runtime map order is not enumerated.",
+   note="Trusted: the reference rule (validated against the implementation on every non-ambiguous case); empty-valued hash entries only get membership/uniqueness/order-independence; map iteration order is owned by the vmap seam (every case under ascending, descending and alternating key order; outcomes compared across orders).",
    technique="explicit enumeration of lists x probes x permutations against a documented-rule reference",
    design="5/C16"),
 })
@@ -154,6 +154,26 @@ EXTRA = {
  "C20": " Recovery histories: every crash state followed, in a new process, by a store (shorter / longer / the same document / another identifier) and a retrieve; the environment with the temporary directory on another file system.",
 }
 for k, v in EXTRA.items():
+    claimed[k]["text"] += v
+# map-iteration-order seam
+for k in ["C01","C02","C03","C05","C07","C08","C09","C10","C12","C13","C14","C15","C16"]:
+    claimed[k]["text"] += " Every case is run under several map iteration orders of the library's own map loops (type-checked overlay rewriting each range over a map; ascending, descending, alternating; thorough: + rotated, alternating-odd) and must hold under each; what the case observes must be the same under all."
+EXTRA2 = {
+ "C03": " The child also as a FILE node; the identity attributes themselves over the near-string menu.",
+ "C04": " Every punctuation character once and doubled at either end of every value.",
+ "C05": " References that coincide under trimming or case folding.",
+ "C07": " Serialization histories also on live document values (a serializer that edits its input changes what the next one sees).",
+ "C08": " Every edge type number (declared and undeclared) pairwise on one source x merging, removal and extraction.",
+ "C09": " One list per edge type number (declared and undeclared) in the pair matrix; identifiers that coincide under case folding or trimming.",
+ "C10": " Edge-type and near-identifier families as in C09.",
+ "C11": " Operands with spare slice capacity and a snapshot of the memory between length and capacity; a well-formed but not normalised operand.",
+ "C12": " Timestamp range corners (Go's zero time, maximum, epoch as an empty message).",
+ "C13": " Undeclared edge type numbers, pairwise.",
+ "C15": " Size classes 300 and 2000 with a thinned depth sweep.",
+ "C17": " sync.Pool is inside the seam (deterministic LIFO); a ThreadSanitizer report counts when re-detected at least once in 8 fresh-process replays of its schedule.",
+ "C19": " One backend value for a whole history while the directory is removed from outside or Options.Path is re-pointed; relative configured path (working directory) and umask start states.",
+}
+for k, v in EXTRA2.items():
     claimed[k]["text"] += v
 
 checks = []
